@@ -86,6 +86,14 @@ def load_corpus(pid):
             pf = os.path.join(sd, d, 'patch.diff')
             if d.startswith(pid + '-') and os.path.exists(pf):
                 out.append({'pid': pid, 'kind': 'M', 'name': 'seeded/' + d, 'expect': '', 'patch': pf, 'edits': []})
+    # behaviour-preserving refactorings written by independent sub-agents (refactorings/<id>/patch.diff): every check
+    # must stay silent on each of them, whichever part of the package they touch
+    rd = os.path.join(VERIF, 'refactorings')
+    if os.path.isdir(rd):
+        for d in sorted(os.listdir(rd)):
+            pf = os.path.join(rd, d, 'patch.diff')
+            if os.path.exists(pf):
+                out.append({'pid': pid, 'kind': 'E', 'name': 'refactorings/' + d, 'expect': '', 'patch': pf, 'edits': []})
     return out
 
 
